@@ -544,7 +544,26 @@ func runC15(c *ev.Ctx) {
 		fn := filepath.Join(dir, fmt.Sprintf("c15-%d.bin", k))
 		_ = os.WriteFile(fn, data, 0o644)
 		var got []bool
-		p, m := guard(func() { got = R.ReadGroup(fn) })
+		path := fn
+		var cleanup []string
+		switch k % 4 {
+		case 1: // through a symbolic link with a relative target, in another directory
+			ld := filepath.Join(dir, fmt.Sprintf("c15-links-%d", k))
+			_ = os.MkdirAll(ld, 0o755)
+			path = filepath.Join(ld, "sample.bin")
+			_ = os.Symlink(filepath.Join("..", filepath.Base(fn)), path)
+			cleanup = append(cleanup, path, ld)
+		case 2: // through a symbolic link with an absolute target
+			path = filepath.Join(dir, fmt.Sprintf("c15-abs-link-%d.bin", k))
+			_ = os.Symlink(fn, path)
+			cleanup = append(cleanup, path)
+		case 3: // through a path with redundant elements
+			path = filepath.Join(dir, ".", "..", filepath.Base(dir), filepath.Base(fn))
+		}
+		p, m := guard(func() { got = R.ReadGroup(path) })
+		for _, x := range cleanup {
+			os.Remove(x)
+		}
 		os.Remove(fn)
 		c.Eval(ev.HashStr("readgroup"+fc.what), true)
 		c.Count("file_loader_cases", 1)
